@@ -698,6 +698,15 @@ func (sc *specCtx) evalCall(e *CallE) Val {
 		a := args(2)
 		sc.want(a[0], SStr, e)
 		return boolVal(app("str_lt", a[0].T, a[1].T))
+	case "chanlen", "chancap":
+		a := args(1)
+		rn := map[string]string{"chanlen": "chan.len", "chancap": "chan.cap"}[e.Fun]
+		r := sc.fc.regionIn(sc.st, sc.heap, rn, "(Array U Int)")
+		return intVal(sel(r, a[0].T))
+	case "chanclosed":
+		a := args(1)
+		r := sc.fc.regionIn(sc.st, sc.heap, "chan.closed", "(Array U Bool)")
+		return boolVal(sel(r, a[0].T))
 	case "fieldaddr":
 		// fieldaddr(x, f): the address &x.f as passed to methods of the field's type
 		if len(e.Args) != 2 {
